@@ -349,6 +349,21 @@ example :
       (50000, 13, [100, 101, 0, 0, 0, 0, 0, 0, 107, 0], [109, 110], [102, 103, 104, 105, 106]) := by
   decide
 
+open GoNfsd.Model.BlockMap in
+/-- A REQUEST THAT CANNOT FINISH FREEING SAYS SO, AND LEAVES THE BOOKS RIGHT.  `Resize` inside one
+    transaction, with an estimate `fits` that may be wrong in either direction and room for only
+    `budget` rounds of `Shrink`: the flag it returns tells the caller to start the background
+    shrinker exactly when blocks are left to free, and the file it leaves satisfies the
+    bookkeeping invariant (nothing mapped beyond its new ShrinkSize) — so whoever finishes the
+    shrink later (`finishShrink_ok`) frees everything.  This is the statement the code violated
+    before fix b79792e (the flag was `false` whenever the estimate held). -/
+theorem unfinished_shrink_is_reported_and_consistent (s : S) (ino : Ino) (sz : Nat) (fits : Bool)
+    (budget : Nat) (h : InoOK s ino) (hsz : roundUp sz ≤ MAXBLKS) :
+    ((opResizeB s ino sz fits budget).2.2 = true ↔
+      (opResizeB s ino sz fits budget).2.1.shrink > roundUp (opResizeB s ino sz fits budget).2.1.size) ∧
+    InoOK (opResizeB s ino sz fits budget).1 (opResizeB s ino sz fits budget).2.1 :=
+  ⟨resize_flag_is_exact s ino sz fits budget, opResizeB_ok s ino sz fits budget h hsz⟩
+
 /-! ### the allocator itself (model M2, tied to go-journal's `alloc.Alloc` by the `alloc` correspondence) -/
 
 open GoNfsd.Model.Alloc in
